@@ -26,7 +26,7 @@ from typing import List
 from ..engine import FAMILIES, Analysis, describe_path
 from ..frontend import AnalysisError
 from ..report import RuleResult
-from ..values import BoundV, Const, Sym, TupleV, Unknown, V
+from ..values import BoundV, ExtObj, Const, Sym, TupleV, Unknown, V
 from . import common
 from .c01 import SEND_QUALS
 
@@ -51,6 +51,9 @@ def override_worker(analysis: Analysis, spec) -> dict:
     st.mem[(pr.key(), "a", "gateway")] = gw
     data = Sym(("root", "data"), "bytes")
     rows = []
+    # what a job does is not this rule's business (an override that ends up in handle_line would otherwise pull in
+    # the whole dispatcher through the inline branch of add_job)
+    it.inline_skip = set(SEND_QUALS) | {"__init__:Gateway.logic"}
     for out in analysis.run_root(it, info.qual, [data], pr, st):
         kind, s, v = out
         calls = [e for e in s.events if e.kind == "call" and e.name.split(".")[-1] == method]
@@ -111,8 +114,29 @@ def add_job_worker(analysis: Analysis, flavour: str) -> dict:
         reply_falsy = any(f[0] in ("falsy", "isnone") and "run_job" in repr(f[1]) for f in s.facts)
         if not sends and reply_falsy and len(runs) == 1:
             send_ok = True  # an empty reply need not be handed to send (send ignores it)
-        rows.append({"kind": kind, "exc": v.cls.__name__ if kind == "raise" else None, "appends": len(appends), "pair_ok": pair_ok, "runs": len(runs), "run_args_ok": run_args_ok, "sends": len(sends), "send_ok": send_ok, "witness": describe_path(out, 12)})
-    return {"flavour": flavour, "qual": m.qual, "rows": rows}
+        # the test "am I called from the pump thread?" (threaded flavour): current_thread() is <attribute of tasks>
+        on_pump, pump_attr = None, None
+        for fct in s.facts:
+            if fct[0] == "atom" and fct[1][0] in ("is", "eq") and "threading.current_thread" in repr(fct[1]):
+                other = [k for k in fct[1][1:] if "threading.current_thread" not in repr(k)]
+                if other and isinstance(other[0], tuple) and other[0][:2] == ("attr", tasks.key()):
+                    on_pump, pump_attr = fct[2], other[0][2]
+        rows.append({"kind": kind, "exc": v.cls.__name__ if kind == "raise" else None, "appends": len(appends), "pair_ok": pair_ok, "runs": len(runs), "run_args_ok": run_args_ok, "sends": len(sends), "send_ok": send_ok, "on_pump": on_pump, "pump_attr": pump_attr, "witness": describe_path(out, 12)})
+    # which attribute holds the thread that runs the pump loop (threaded flavour): evaluated from start()
+    pump_thread_attrs = []
+    if flavour == "sync":
+        it2 = analysis.new_interp(ctx)
+        st2, _gw2 = analysis.gateway_state(it2)
+        it2.inline_skip = {q for q in analysis.p.funcs if q.endswith(".connect")}
+        startm = analysis.p.find_method(ctx.tasks, "start")
+        for kind, s2, v2 in analysis.run_root(it2, startm.qual, [], tasks, st2):
+            started = {e.recv.key() for e in s2.events if e.kind == "call" and e.name == "threading.Thread.start" and isinstance(e.recv, V)}
+            for e in s2.events:
+                if e.kind == "store" and isinstance(e.recv, V) and e.recv.key() == tasks.key() and e.args and isinstance(e.args[0], ExtObj) and e.args[0].cls == "threading.Thread":
+                    tgt = e.args[0].kwargs.get("target") or (e.args[0].args[1] if len(e.args[0].args) > 1 else None)
+                    if isinstance(tgt, BoundV) and tgt.info.qual.endswith("._poll_queue") and e.args[0].key() in started:
+                        pump_thread_attrs.append(e.name)
+    return {"flavour": flavour, "qual": m.qual, "rows": rows, "pump_thread_attrs": sorted(set(pump_thread_attrs))}
 
 
 def pump_worker(analysis: Analysis, _spec) -> dict:
@@ -292,9 +316,24 @@ def run(analysis: Analysis, tier: str) -> RuleResult:
         res.add("C19-R3", f"{fam}: the threaded and the asyncio protocol handle a line the same way", same, "mysensors/transport.py", f"{a['qual']} for both" if a["qual"] == b["qual"] else (f"{a['qual']} and {b['qual']} have the same path summaries" if same else f"{a['qual']} and {b['qual']} differ"))
     # R4
     aj = {s["flavour"]: s for s in common.pmap(analysis, add_job_worker, ["sync", "async"])}
+    # threaded flavour: a job added from another thread (reader, controller) is appended as (func, args); a job added
+    # by a running job - from the pump thread - is run at once, as the asyncio flavour does. Deferring it would put
+    # the commands a line triggers (wake-up flush, presentation request) behind whatever lines are already queued:
+    # the emitted sequence would depend on the flavour and on how the stream was chunked (D16)
+    sq = aj["sync"]["qual"]
+    inline_rows = [r for r in aj["sync"]["rows"] if r["kind"] == "val" and r["runs"] == 1]
     for r in aj["sync"]["rows"]:
-        ok = r["kind"] == "val" and r["pair_ok"] and r["runs"] == 0 and r["sends"] == 0
-        res.add("C19-R4", f"{aj['sync']['qual']} / only appends the (func, args) pair to the job queue", ok, "mysensors/task.py", "queue.append((func, args))" if ok else f"appends {r['appends']} (pair ok: {r['pair_ok']}), runs {r['runs']}, sends {r['sends']}, {r['exc'] or ''}", r["witness"] if not ok else None)
+        if r["kind"] == "raise":
+            continue  # a raising job is C01
+        if r["runs"]:
+            ok = r["run_args_ok"] and r["send_ok"] and r["appends"] == 0 and r["on_pump"] is True
+            res.add("C19-R4", f"{sq} / a job added by a running job is run once, at once, and exactly its reply is sent - only when called from the pump thread", ok, "mysensors/task.py", "current_thread() is the pump thread: reply = run_job(job); transport.send(reply)" if ok else f"runs {r['runs']} (args ok: {r['run_args_ok']}), send ok: {r['send_ok']}, appends {r['appends']}, pump-thread test: {r['on_pump']}", r["witness"] if not ok else None)
+        else:
+            ok = r["pair_ok"] and r["sends"] == 0 and r["on_pump"] is not True
+            res.add("C19-R4", f"{sq} / a job added from another thread is appended as the (func, args) pair", ok, "mysensors/task.py", "queue.append((func, args))" if ok else f"appends {r['appends']} (pair ok: {r['pair_ok']}), sends {r['sends']}, pump-thread test: {r['on_pump']}", r["witness"] if not ok else None)
+    attrs = {r["pump_attr"] for r in inline_rows if r["pump_attr"]}
+    ok_n = bool(inline_rows) and bool(attrs) and attrs <= set(aj["sync"]["pump_thread_attrs"])
+    res.add("C19-R4", f"{sq} / jobs added while a job runs are not deferred behind the lines already queued (same emitted order as the asyncio flavour, whatever the chunking)", ok_n, "mysensors/task.py", f"inline path under current_thread() is self.{sorted(attrs)[0]}, which start() sets to the started pump thread" if ok_n else ("every job is appended: what a wake-up line releases is sent after the replies to lines that were already waiting - the threaded gateway emits another order than the asyncio one, and its order depends on whether the pump ran between two chunks" if not inline_rows else f"the inline path is taken under a test of {sorted(attrs)} but start() stores the pump thread in {aj['sync']['pump_thread_attrs']}"), next((r["witness"] for r in aj["sync"]["rows"] if r["kind"] == "val"), None))
     for r in aj["async"]["rows"]:
         if r["kind"] == "raise":
             continue  # a raising job / cancellation is C01 / C20
